@@ -17,6 +17,16 @@ fn svc(pkg: &str, name: &str, methods: &[(&str, &str, &str, bool)]) -> anemo_bui
     b.build()
 }
 
+fn typed(fn_name: &str, route: &str, codec: &str, ty: &str) -> anemo_build::manual::Method {
+    anemo_build::manual::Method::builder()
+        .name(fn_name)
+        .route_name(route)
+        .request_type(ty)
+        .response_type(ty)
+        .codec_path(codec)
+        .build()
+}
+
 fn main() {
     const BIN: &str = "anemo::rpc::codec::BincodeCodec";
     const JSON: &str = "anemo::rpc::codec::JsonCodec";
@@ -26,6 +36,16 @@ fn main() {
         svc("p.q", "Greeter", &[("say_hello", "SayHello", JSON, false)]),
         svc("p", "Empty", &[]),
     ];
+    // message types whose encoding may be empty (unit) or that accept JSON null (Option)
+    let probe = anemo_build::manual::Service::builder()
+        .name("Probe")
+        .package("c17")
+        .method(typed("unit_b", "UnitB", BIN, "crate::gen::Unit"))
+        .method(typed("unit_j", "UnitJ", JSON, "crate::gen::Unit"))
+        .method(typed("opt_b", "OptB", BIN, "Option<crate::gen::Msg>"))
+        .method(typed("opt_j", "OptJ", JSON, "Option<crate::gen::Msg>"))
+        .build();
+    let services: Vec<anemo_build::manual::Service> = services.into_iter().chain(std::iter::once(probe)).collect();
     anemo_build::manual::Builder::new().compile(&services);
     println!("cargo:rerun-if-changed=build.rs");
     println!("cargo:rerun-if-changed=/repo/crates/anemo-build/src");
